@@ -16,6 +16,19 @@ Theorem C10_sites_guarded : forallb (site_guarded ConcGen.cache_methods) ConcGen
 Proof. exact sites_all_guarded. Qed.
 Print Assumptions C10_sites_guarded.
 
+(* the call-graph search behind site_guarded runs on fuel (= the length of the table): it did
+   not run out on the regenerated table; running out is the explicit answer RsOutOfFuel,
+   which site_guarded counts as not guarded (never as "touches no shared state") *)
+Theorem C10_reach_fuel_sufficient : reach_fuel_ok ConcGen.cache_methods = true.
+Proof. exact reach_fuel_sufficient. Qed.
+Print Assumptions C10_reach_fuel_sufficient.
+
+Example C10_reach_out_of_fuel_example :
+  reaches_shared 1 deep_table ["A"%string] ["call:b"%string] = RsOutOfFuel /\
+  reaches_shared (reach_fuel deep_table) deep_table ["A"%string] ["call:b"%string] = RsYes /\
+  site_guarded deep_table ("A"%string, true, ["call:b"%string]) = false.
+Proof. exact reaches_shared_out_of_fuel. Qed.
+
 Theorem C10_cache_methods_agree : ConcGen.cache_methods = expected_cache_methods.
 Proof. exact cache_methods_agree. Qed.
 Print Assumptions C10_cache_methods_agree.
